@@ -79,6 +79,15 @@ def fd_tables():
         for k, v in flags.items():
             if bool(e.get(k)) != bool(v):
                 bad.append((c.__name__, k, v, e.get(k)))
+        # the flags of an OBJECT of the function are what the protocols put into the header (W-bit): they must be the class's
+        try:
+            o = c()
+            inst = {"to_host": o.to_host, "to_equipment": o.to_equipment, "reply": o.has_reply, "reply_required": o.is_reply_required, "multi_block": o.is_multi_block}
+            for k, v in inst.items():
+                if bool(e.get(k)) != bool(v):
+                    bad.append((c.__name__, "instance." + k, v, e.get(k)))
+        except Exception as exc:  # noqa: BLE001
+            bad.append((c.__name__, "cannot be instantiated", type(exc).__name__))
         ys = " ".join((e.get("structure") or "").split())
         cs = " ".join(c._data_format.split()) if isinstance(c._data_format, str) else ""
         if ys != cs:
